@@ -38,6 +38,7 @@ def setup(ctx):
     ctx.require("monitor", "incomplete_lines_checked", 50)
     ctx.require("monitor", "after_refusal_connections", 100)
     ctx.require("monitor", "url_forms_checked", 300)
+    ctx.require("monitor", "l2_valid_deliveries", 150)
 
 
 def run_line(data: bytes, uploads: bool, cuts=()):
@@ -210,6 +211,67 @@ def gen_accept(rng):
     return line.encode() + b"\r\n" + bytesgen.content_bytes(rng, size), "gen-titan"
 
 
+def run_l2_valid_delivery(ctx):
+    """Grammar-valid lines through both TLS layers in every record layout a client may produce: one record, two and
+    three records in one TCP read, the request in the same read as the client's Finished (one record, and split over
+    two), separate reads.  The handler (upload handler) is reached exactly once with host, path and query intact."""
+    from nauyaca.server.protocol import GeminiServerProtocol
+
+    from vf import tlsbench
+
+    lines = [(b"gemini://example.org/a/b?q=1\r\n", "gemini", ("example.org", "/a/b", "q=1")), (b"gemini://[2001:db8::7]:1966/x\r\n", "gemini-ipv6", ("2001:db8::7", "/x", None)),
+             (b"titan://example.org/up;size=5;mime=text/plain\r\nhello", "titan", ("example.org", "/up", None)), (b"gemini://example.org/" + b"p" * 900 + b"\r\n", "gemini-long", ("example.org", "/" + "p" * 900, None))]
+    k = 0
+    for data, label, (host, path, query) in lines:
+        le = data.find(b"\r\n") + 2
+        layouts = {"one-record": [data], "two-records": [data[:7], data[7:]], "line|rest": [data[:le - 2], data[le - 2:]], "three-records": [data[:3], data[3:le - 1], data[le - 1:]]}
+        for backend in ("pyopenssl", "stdlib"):
+            for tls_max in ("1.3", "1.2"):
+                for lname, pieces in layouts.items():
+                    for delivery in ("one-read", "with-finished", "separate-reads"):
+                        k += 1
+                        if not ctx.mine(k):
+                            continue
+                        log = []
+                        loop = new_loop()
+                        try:
+                            h = SpyHandler({"mode": "sync", "outcome": "value", "status": 20, "meta": "text/gemini", "body": "ok"}, log, loop)
+                            mw = SpyMiddleware({"outcome": "allow"}, log, loop)
+                            up = SpyUpload({"outcome": "value", "status": 20, "meta": "text/gemini", "body": "stored"}, log, loop)
+                            bench = tlsbench.Sandwich(loop, lambda: GeminiServerProtocol(h, mw, up), backend=backend, log=log, tls_max=tls_max)
+                            pieces_ = [p for p in pieces if p]
+                            if delivery == "with-finished":
+                                ok = bench.handshake(coalesce_with=pieces_)
+                            else:
+                                ok = bench.handshake()
+                                if ok and delivery == "one-read":
+                                    bench.client_send_records(pieces_)
+                                elif ok:
+                                    for pc in pieces_:
+                                        bench.client_send(pc)
+                            if not ok:
+                                ctx.inconclusive_because(f"L2 handshake failed: {bench.error}")
+                                continue
+                            bench.finish()
+                            stream = bytes(bench.client_plain)
+                            calls = up.calls if label == "titan" else h.calls
+                            ctx.count("monitor", "l2_valid_deliveries")
+                            wit = {"level": "L2", "backend": backend, "tls": tls_max, "line": data[:60], "records": lname, "delivery": delivery, "stream": stream[:40], "handler_entries": len(h.calls), "upload_entries": len(up.calls)}
+                            if len(calls) != 1:
+                                ctx.violation(f"valid-refused:tls-record-layout:{'titan' if label == 'titan' else 'gemini'}:backend={backend}", f"a grammar-valid request delivered as {lname} / {delivery} did not reach the handler (answer {stream[:24]!r})", wit)
+                            else:
+                                c = calls[0]
+                                seen = (c["host"], c["path"], None) if label == "titan" else (c.hostname, c.path, c.query or None)
+                                want = (host, path, query if label != "titan" else None)
+                                if (seen[0].lower(), seen[1], seen[2]) != (want[0], want[1], want[2]):
+                                    ctx.violation(f"valid-altered:tls-record-layout:backend={backend}", f"the handler saw {seen}, the line says {want}", wit)
+                                elif label == "titan" and c["content"] != b"hello":
+                                    ctx.violation(f"valid-altered:content:tls-record-layout:backend={backend}", f"the upload handler got {c['content']!r}", wit)
+                            ctx.case(("L2-valid", label, backend, tls_max, lname, delivery, len(calls)), True, sample=wit)
+                        finally:
+                            close_loop(loop)
+
+
 def run_l2_after_refusal(ctx):
     """A refused request line followed by a valid one on the same connection: the PyOpenSSL pump hands
     every TLS record of one TCP read to the protocol, also after the protocol has closed; the stdlib layer
@@ -286,6 +348,7 @@ def run_l2_after_refusal(ctx):
 
 def run(ctx):
     run_l2_after_refusal(ctx)
+    run_l2_valid_delivery(ctx)
     rng = ctx.rng("lines")
     n = ctx.pick(36000, 5000000) // ctx.nshards
     fixed_incomplete = [b"gemini://example.org/\n", b"gemini://example.org/\r", b"gemini://example.org/", b"gemini://example.org/\n\n", b"titan://example.org/x;size=1\nA",
